@@ -14,11 +14,13 @@ PROP = {
             "configured engine that has not parsed anything yet is handed to all goroutines, which start by parsing), ONE set of parsed templates (36 fixed templates covering every standard tag and all 48 standard "
             "filters, error paths included, + 12 random loop/cycle templates) and ONE bindings map (scalars, caller-owned "
             "slices and maps, typed slice, MapSlice, range, pointer, struct, drops, 3 random values); every goroutine "
-            "renders every shared template through Render/RenderString/FRender in lock step, then a random mix of "
+            "renders every shared template through Render/RenderString/FRender, all released by one common start signal "
+            "(even goroutines in list order, odd ones in reverse; no barrier between the renders), then a random mix of "
             "ParseTemplate+Render, ParseAndRenderString and shared renders; run under the Go race detector "
             "(GORACE=halt_on_error=1 exitcode=66) in a child process. A round is non-trivial by construction; distinct by "
-            "(round, N, GOMAXPROCS). The race detector SAMPLES schedules; the all-schedules claim is the theorems plus "
-            "the obligation no_shared_writes over the table translator T3 regenerates from the Go source on every run.",
+            "(round, N, GOMAXPROCS). The race detector SAMPLES schedules; the all-schedules claim is the theorems about the "
+            "abstract machine under an ASSUMED ownership premise, of which the obligation no_shared_writes over the table "
+            "translator T3 regenerates from the Go source on every run checks a necessary condition.",
     "trusted_base": [
         "Go memory model and the Go race detector (ThreadSanitizer runtime); sync.Once used by values.dropWrapper",
         "translator T3 (translate/writes.go, go/ssa of golang.org/x/tools v0.29.0): flow-insensitive closure escape test, "
@@ -26,30 +28,42 @@ PROP = {
         "Go harness, Python orchestrator and Lean driver I/O loop are ordinary unverified programs",
     ],
     "assumptions": [
-        "the machine of Liquid/Conc.lean abstracts a parse or render call as a sequence of reads/writes of locations with an "
-        "owner region; the premise (writes go to locations the call allocated itself; no call reads another call's "
-        "allocations) is tied to the code by the obligation no_shared_writes (static, all schedules) and by the race "
-        "detector rounds (dynamic, sampled schedules)",
+        "the machine of Liquid/Conc.lean abstracts a parse or render call as a FIXED, finite, straight-line sequence of "
+        "reads/writes of locations with an owner region: no control flow and no address depends on a value read, nothing is "
+        "allocated, and there is no lock or other synchronisation in the machine (sync.Once of values.dropWrapper is trusted); "
+        "that a call of the real code is such a sequence is assumed",
+        "the premise of the theorems (WritesOwned: writes go to locations the call allocated itself; ReadsVisible: no call "
+        "reads another call's allocations) is ASSUMED for the code, not derived: no theorem connects it to the source. The "
+        "obligation no_shared_writes checks statically one necessary condition of WritesOwned (no store through a captured or "
+        "package-level variable); writes through a receiver or pointer parameter into the shared engine, templates or "
+        "bindings, and ReadsVisible altogether, have no static check and are covered only by the race detector rounds "
+        "(dynamic, sampled schedules)",
         "configuration (RegisterFilter/RegisterTag/RegisterBlock/StrictVariables/Delims/ParseTemplateAndCache, which writes "
         "the engine's include cache) happens before the goroutines start, as the property's premise says",
     ],
 }
 
 TEXT = {
-    "text": "Theorems for ALL schedules of an interleaving machine (induction on the schedule): if every write of every thread "
-            "targets a location owned by that thread and no thread reads another thread's allocations, no trace has two "
+    "text": "Theorems for ALL schedules of an abstract interleaving machine whose threads are fixed straight-line sequences of "
+            "reads and writes (no control flow or address depending on a value read, no locks; induction on the schedule): if "
+            "every write of every thread "
+            "targets a location owned by that thread (WritesOwned) and no thread reads another thread's allocations "
+            "(ReadsVisible), no trace has two "
             "conflicting accesses by different threads (conc_race_free), every finished thread's result equals its result "
             "when run alone (conc_eq_sequential; prefix form conc_prefix_sequential), the shared region is unchanged "
-            "(conc_shared_unchanged), and a thread given enough turns finishes (conc_enough_turns_finishes). The static "
-            "premise for the code, no_shared_writes, is re-proved by `decide` on every run over the table of stores to "
+            "(conc_shared_unchanged), and a thread given enough turns finishes (conc_enough_turns_finishes). That the code "
+            "satisfies WritesOwned/ReadsVisible is assumed, not proved. One necessary condition of it, "
+            "no_shared_writes, is re-proved by `decide` on every run over the table of stores to "
             "captured/package-level variables that translator T3 regenerates from the Go source with go/ssa (no closure "
             "that outlives its creator writes a captured variable; no package-level variable written outside init). "
             "The real code is run under the race detector on a grid N x GOMAXPROCS with shared engine/templates/bindings; "
             "oracle: no race report and every concurrent result equals the sequential one.",
     "design_ref": "DESIGN.md 6 C04, 4.8, 5.3 (T3), 7 (D10)",
     "note": NOTE + "The race-detector rounds sample schedules (and with GOMAXPROCS=1 incidental sync.Pool edges hide many "
-            "races); the all-schedules claim rests on the abstract theorems plus the T3 obligation, whose escape test is "
-            "an over-approximation for closures but does not follow writes through pointer parameters. The model side of "
+            "races); the all-schedules statement is about the abstract machine under the assumed premise WritesOwned/"
+            "ReadsVisible; the T3 obligation checks only that no store goes through a captured or package-level variable (its "
+            "escape test is an over-approximation for closures but does not follow writes through receivers and pointer "
+            "parameters), and nothing static stands for ReadsVisible. The model side of "
             "the `conc` stream is the constant verdict `ok`.",
     "technique": "Lean 4 proof (invariant preserved by every step, induction on the schedule) + go/ssa fact extraction checked by "
                  "`decide` + race-detector differential runs (concurrent vs sequential)",
